@@ -9,7 +9,7 @@ reg = eng.make_reg(); cl = Cluster(eng.make_spec(), reg)
 uni = [clause_key(c) for c in cl.all_clauses()]
 import os
 if len(sys.argv) > 4 and os.path.exists(eng.cache_file):
-    inv = json.load(open(eng.cache_file))["inv"]
+    inv = json.load(open(os.environ.get("VERIF_INV_FILE", eng.cache_file)))["inv"]
 else:
     inv = {"entry": mrun.initial_clauses(eng, uni)}
 inv["*"] = uni
